@@ -27,9 +27,11 @@ are derived from `cpuWrites w`, the ghost log of the CPU's bus writes of a cycle
    while a transfer runs, and CPU writes to FE00–FE9F are not blocked (`c16_whole_write_not_blocked`).
 4. APU (C19/C21).  `whole_apu_flip` (a status bit that changes inside a cycle changes at one of the CPU's sound
    writes of that cycle or in `audio.EndMachineCycle`), `c19_whole_on_only_by_trigger`, `c19_whole_off_causes`,
-   `c19_whole_off_causes_ch2`, `c19_whole_run`, `c21_whole_cycle`.  PARTIAL with respect to C19/C21 as a whole: the
-   length-expiry theorems (`c19_length_exact`, channel-level functions) and the many-cycle closed forms of C21 are
-   not lifted; C21 is stated for one machine cycle (4 clocks) without sound-register writes.
+   `c19_whole_off_causes_ch2`, `c19_whole_run`, `c21_whole_cycle`, `whole_apu_quiet_run`, `c21_whole` (channels 2 and 4:
+   the closed form of C21 along ANY number of machine cycles without sound-register writes).  PARTIAL with respect
+   to C19/C21 as a whole: the length-expiry theorems (`c19_length_exact`, `c19_256hz`: channel-level functions /
+   clocks without NR52 writes) and C21 for channels 1 and 3 (sweep / length interaction, component level only) are
+   not lifted.
 5. CPU (C01–C05): NOT lifted.  `c01_program_refines` and all instruction-level theorems (C01–C05, Lemmas/Cpu*.lean)
    are stated for the flat bus `Exec.Flat` (memory = a function, reads pure, nothing changes between cycles); the
    board's reads have side effects and its I/O registers and IF change at the end of every cycle.  Lifting needs an
@@ -701,6 +703,148 @@ theorem c21_whole_cycle (w : Whole) (h : w.cycle.stopped = false) (hq : apuWrite
   · rw [clearTriggered_lfsr]
     exact Tetro.C21.c21_apu_noise w.b.apu r sh hn h2 h4 4
 
+/-! #### many machine cycles without sound-register writes -/
+
+open Tetro.C21 in
+private theorem sqTicks_gen_congr (n : Nat) :
+    ∀ s t : Square, s.gen = t.gen → (sqTicks n s).gen = (sqTicks n t).gen := by
+  induction n with
+  | zero => intro s t h; exact h
+  | succ k ih => intro s t h; exact ih _ _ (Square.gen_tickTimer_congr s t h)
+
+open Tetro.C21 in
+private theorem noiseTicks_gen_congr (n : Nat) :
+    ∀ s t : Noise, s.gen = t.gen → (noiseTicks n s).gen = (noiseTicks n t).gen := by
+  induction n with
+  | zero => intro s t h; exact h
+  | succ k ih => intro s t h; exact ih _ _ (Noise.gen_tickTimer_congr s t h)
+
+open Tetro.C21 in
+private theorem sqTicks_add (m n : Nat) (s : Square) : sqTicks (m + n) s = sqTicks n (sqTicks m s) := by
+  induction m generalizing s with
+  | zero => rw [Nat.zero_add]; rfl
+  | succ k ih => rw [Nat.add_right_comm]; exact ih s.tickTimer
+
+open Tetro.C21 in
+private theorem noiseTicks_add (m n : Nat) (s : Noise) : noiseTicks (m + n) s = noiseTicks n (noiseTicks m s) := by
+  induction m generalizing s with
+  | zero => rw [Nat.zero_add]; rfl
+  | succ k ih => rw [Nat.add_right_comm]; exact ih s.tickTimer
+
+open Tetro.C21 in
+private theorem sqTicks_triggered (n : Nat) (s : Square) : (sqTicks n s).triggered = s.triggered := by
+  induction n generalizing s with
+  | zero => rfl
+  | succ k ih => show (sqTicks k s.tickTimer).triggered = _; rw [ih, Square.triggered_tickTimer]
+
+open Tetro.C21 in
+private theorem noiseTicks_triggered (n : Nat) (s : Noise) : (noiseTicks n s).triggered = s.triggered := by
+  induction n generalizing s with
+  | zero => rfl
+  | succ k ih => show (noiseTicks k s.tickTimer).triggered = _; rw [ih, Noise.triggered_tickTimer]
+
+open Tetro.C21 in
+/-- `n` clocks of the whole APU act on the generators of channels 2 and 4 as `n` clocks of the generators alone
+    (nothing triggered in the current machine cycle) -/
+private theorem clocks_gens (n : Nat) : ∀ a : Apu, a.ch2.triggered = false → a.ch4.triggered = false →
+    (clocks n a).ch2.gen = (sqTicks n a.ch2).gen ∧ (clocks n a).ch4.gen = (noiseTicks n a.ch4).gen := by
+  induction n with
+  | zero => intro a _ _; exact ⟨rfl, rfl⟩
+  | succ k ih =>
+    intro a h2 h4
+    have hg := Apu.gens_tickClock a
+    simp only [Apu.gens, Prod.mk.injEq, h2, h4, Bool.not_false, if_true] at hg
+    obtain ⟨g2, g4⟩ := hg
+    have t2 : a.tickClock.ch2.triggered = false := by
+      have := congrArg (fun x => x.2.2.2) g2
+      simp only [Square.gen] at this
+      rw [this, Square.triggered_tickTimer]; exact h2
+    have t4 : a.tickClock.ch4.triggered = false := by
+      have := congrArg (fun x => x.2.2.2.2.2) g4
+      simp only [Noise.gen] at this
+      rw [this, Noise.triggered_tickTimer]; exact h4
+    obtain ⟨i2, i4⟩ := ih a.tickClock t2 t4
+    show (clocks k a.tickClock).ch2.gen = (sqTicks k a.ch2.tickTimer).gen ∧
+         (clocks k a.tickClock).ch4.gen = (noiseTicks k a.ch4.tickTimer).gen
+    exact ⟨i2.trans (sqTicks_gen_congr k _ _ g2), i4.trans (noiseTicks_gen_congr k _ _ g4)⟩
+
+private theorem clearTriggered_gen2 (x : Apu) (h : x.ch2.triggered = false) : x.clearTriggered.ch2.gen = x.ch2.gen := by
+  show (x.ch2.timer, x.ch2.dutyIndex, x.ch2.frequency, false) = (x.ch2.timer, x.ch2.dutyIndex, x.ch2.frequency, x.ch2.triggered)
+  rw [h]
+private theorem clearTriggered_gen4 (x : Apu) (h : x.ch4.triggered = false) : x.clearTriggered.ch4.gen = x.ch4.gen := by
+  show (x.ch4.timer, x.ch4.lfsr, x.ch4.divisor, x.ch4.shift, x.ch4.lfsrWidth, false) =
+    (x.ch4.timer, x.ch4.lfsr, x.ch4.divisor, x.ch4.shift, x.ch4.lfsrWidth, x.ch4.triggered)
+  rw [h]
+
+open Tetro.C21 in
+/-- `m` machine cycles of the APU (4 clocks and `clearTriggered` each) act on the generators of channels 2 and 4 as
+    `4·m` clocks of the generators alone -/
+private theorem cycles_gens (m : Nat) : ∀ a : Apu, a.ch2.triggered = false → a.ch4.triggered = false →
+    (cycles m a).ch2.gen = (sqTicks (4 * m) a.ch2).gen ∧ (cycles m a).ch4.gen = (noiseTicks (4 * m) a.ch4).gen := by
+  induction m with
+  | zero => intro a _ _; exact ⟨rfl, rfl⟩
+  | succ k ih =>
+    intro a h2 h4
+    obtain ⟨g2, g4⟩ := clocks_gens 4 a h2 h4
+    have c2 : (clocks 4 a).ch2.triggered = false := by
+      have := congrArg (fun x => x.2.2.2) g2
+      simp only [Square.gen] at this
+      rw [this, sqTicks_triggered]; exact h2
+    have c4 : (clocks 4 a).ch4.triggered = false := by
+      have := congrArg (fun x => x.2.2.2.2.2) g4
+      simp only [Noise.gen] at this
+      rw [this, noiseTicks_triggered]; exact h4
+    have e2 : a.endMachineCycle.ch2.gen = (sqTicks 4 a.ch2).gen := by
+      rw [emc_clocks, clearTriggered_gen2 _ c2]; exact g2
+    have e4 : a.endMachineCycle.ch4.gen = (noiseTicks 4 a.ch4).gen := by
+      rw [emc_clocks, clearTriggered_gen4 _ c4]; exact g4
+    obtain ⟨i2, i4⟩ := ih a.endMachineCycle rfl rfl
+    show (cycles k a.endMachineCycle).ch2.gen = _ ∧ (cycles k a.endMachineCycle).ch4.gen = _
+    rw [show 4 * (k + 1) = 4 + 4 * k by omega, sqTicks_add, noiseTicks_add]
+    exact ⟨i2.trans (sqTicks_gen_congr _ _ _ e2), i4.trans (noiseTicks_gen_congr _ _ _ e4)⟩
+
+/-- `m` machine cycles in none of which the CPU writes a sound register are `m` `audio.EndMachineCycle`s -/
+theorem whole_apu_quiet_run (m : Nat) (w : Whole) (h : (Whole.run m w).stopped = false)
+    (hq : ∀ j < m, apuWrites (cpuWrites (Whole.run j w)) = []) :
+    (Whole.run m w).b.apu = cycles m w.b.apu := by
+  induction m generalizing w with
+  | zero => rfl
+  | succ m ih =>
+    have h1 : w.cycle.stopped = false := running_prefix 1 (m + 1) (by omega) w h
+    show (Whole.run m w.cycle).b.apu = cycles m w.b.apu.endMachineCycle
+    rw [ih w.cycle h (fun j hj => hq (j + 1) (by omega)), whole_apu_quiet_cycle w h1 (hq 0 (by omega))]
+
+/-- **C21 on the whole machine (channels 2 and 4, any number of cycles).**  From any state of the whole machine at a
+    cycle boundary (where no channel is marked as triggered in the current cycle – true after every machine cycle)
+    with channel 2's generator in a legal state with 11-bit frequency `f` (resp. channel 4 with divisor code `r`,
+    shift `sh`): along EVERY run of `m` machine cycles the emulator survives in which the CPU writes no sound
+    register – whatever else the program does – the duty index of channel 2 has advanced by exactly the number of
+    times the documented period 4·(2048−f) clocks elapses in the 4·m clocks (`stepsIn`: first step when the timer
+    runs out, then one step per period), and the noise generator has been clocked exactly once per documented
+    period d(r)·2^s. -/
+theorem c21_whole (m : Nat) (w : Whole) (h : (Whole.run m w).stopped = false)
+    (hq : ∀ j < m, apuWrites (cpuWrites (Whole.run j w)) = [])
+    (h2 : w.b.apu.ch2.triggered = false) (h4 : w.b.apu.ch4.triggered = false) :
+    (∀ f, Tetro.C21.SqOk w.b.apu.ch2 f →
+      (Whole.run m w).b.apu.ch2.dutyIndex =
+        (w.b.apu.ch2.dutyIndex + Tetro.Countdown.stepsIn (4 * (2048 - f)) w.b.apu.ch2.timer (4 * m)) % 8) ∧
+    (∀ r sh, Tetro.C21.NoiseOk w.b.apu.ch4 r sh →
+      (Whole.run m w).b.apu.ch4.lfsr =
+        Tetro.Countdown.iter (lfsrStep w.b.apu.ch4.lfsrWidth)
+          (Tetro.Countdown.stepsIn (Spec.Apu.noiseDivisor r * 2 ^ sh) w.b.apu.ch4.timer (4 * m))
+          w.b.apu.ch4.lfsr) := by
+  rw [whole_apu_quiet_run m w h hq]
+  obtain ⟨g2, g4⟩ := cycles_gens m w.b.apu h2 h4
+  refine ⟨fun f hf => ?_, fun r sh hn => ?_⟩
+  · have := congrArg (fun x => x.2.1) g2
+    simp only [Square.gen] at this
+    rw [this]
+    exact (Tetro.C21.c21_square f w.b.apu.ch2 hf (4 * m)).1
+  · have := congrArg (fun x => x.2.1) g4
+    simp only [Noise.gen] at this
+    rw [this]
+    exact (Tetro.C21.c21_noise r sh w.b.apu.ch4 hn (4 * m)).1
+
 end apu
 
 /-! ## non-vacuity: ROM-built machines meet the hypotheses, and the conclusions are not trivial -/
@@ -895,6 +1039,29 @@ example : (Whole.run 10 sndW).cycle.stopped = false ∧ apuWrites (cpuWrites (Wh
     (Whole.run 10 sndW).b.apu.ch2.triggered = false ∧ (Whole.run 10 sndW).b.apu.ch4.triggered = false := by
   decide +kernel
 example : Tetro.C21.SqOk (Whole.run 10 sndW).b.apu.ch2 0x700 := by
+  refine ⟨?_, ?_, ?_, ?_⟩ <;> decide +kernel
+
+/-- `c21_whole` on a machine that plays channel 2 at the highest frequency (`NR23 = FF, NR24 = 87`: f = 7FFh, period
+    4 clocks = one machine cycle): from the boundary after the trigger cycle (timer 4, duty index 1) the
+    hypotheses hold for 4 cycles, the documented count is `stepsIn 4 4 16 = 3` steps, and the duty index is 4 -/
+def hiImg : Cart.Image :=
+  { len := 0x8000,
+    byte := fun i =>
+      if 0x100 ≤ i ∧ i < 0x10c then
+        [0x3E, 0xF0, 0xE0, 0x17, 0x3E, 0xFF, 0xE0, 0x18, 0x3E, 0x87, 0xE0, 0x19].getD (i - 0x100) 0 else 0 }
+
+def hiW : Whole := powerOn (.none { rom := Cart.pagesOf hiImg, imgLen := 0x8000 }) false true
+
+example : Whole.construct hiImg false true = some hiW := rfl
+
+example : (Whole.run 4 (Whole.run 15 hiW)).stopped = false ∧
+    (∀ j < 4, apuWrites (cpuWrites (Whole.run j (Whole.run 15 hiW))) = []) ∧
+    (Whole.run 15 hiW).b.apu.ch2.triggered = false ∧ (Whole.run 15 hiW).b.apu.ch4.triggered = false ∧
+    (Whole.run 15 hiW).b.apu.ch2.timer = 4 ∧ (Whole.run 15 hiW).b.apu.ch2.dutyIndex = 1 ∧
+    Tetro.Countdown.stepsIn (4 * (2048 - 0x7FF)) 4 (4 * 4) = 3 ∧
+    (Whole.run 4 (Whole.run 15 hiW)).b.apu.ch2.dutyIndex = 4 := by
+  decide +kernel
+example : Tetro.C21.SqOk (Whole.run 15 hiW).b.apu.ch2 0x7FF := by
   refine ⟨?_, ?_, ?_, ?_⟩ <;> decide +kernel
 
 end Tetro.WholeTraces2
